@@ -97,6 +97,9 @@ def run(ctx):
     for cname in ('UDP', 'TCP', 'IP', 'ICMP', 'EthernetII'):
         for n in (0, 1, 8, 36, 300):
             scripts.append(('k%s%d' % (cname, n), ['newc ' + cname] + (['raw x' + bytes(rng.randrange(256) for _ in range(n)).hex()] if n else []) + ['ser', 'ser']))
+    # option histories (add / remove / replace, serialized in the middle and again at the end): the cached sizes must stay exact
+    hs, _ = R4.option_histories(rng, 400 if quick else 8000)
+    scripts += [('h' + sid, lines) for sid, lines in hs]
     h = C.run_harness('h_pkt', scripts)
     ctx.cov['evaluations'] += len(scripts)
     nontriv = set()
